@@ -25,7 +25,7 @@ RULE = ('models of a grammar whose name and value attributes are STRINGs, filled
         'structure, hostile character classes present); non-trivial = hostile characters or a mixed list present')
 REQUIRED = {'model_exports': 300, 'metamodel_dot_exports': 100, 'plantuml_exports': 100, 'hostile_strings': 500,
             'mixed_lists': 50, 'multi_file_exports': 30, 'nodes_checked': 2000,
-            'models_with_value_equal_user_objects': 50}
+            'models_with_value_equal_user_objects': 50, 'models_with_falsy_user_objects': 30}
 
 GRAMMAR = '''
 Model: imports*=Import objs*=Obj;
@@ -216,6 +216,16 @@ def one(ctx, i, rep=None):
                     f.write(t)
             classes = []
             cv = (i // 6) % 4
+            if cv == 1:
+                # user class whose instances are falsy (an empty container-like object)
+                class Sub:
+                    def __init__(self, parent=None, name=None, of=None):
+                        self.parent, self.name, self.of = parent, name, of
+
+                    def __len__(self):
+                        return 0
+                classes = [Sub]
+                ctx.count('models_with_falsy_user_objects')
             if cv >= 2:
                 # user classes with value semantics: distinct objects compare equal (cv 2: hashable, cv 3: unhashable)
                 class Sub:
